@@ -309,7 +309,7 @@ func zeroOfSort(sortName string) string {
 	case SReal:
 		return "0.0"
 	case SStr:
-		return "str.empty"
+		return "gs.empty"
 	}
 	return "0"
 }
@@ -359,7 +359,7 @@ func (e *Engine) fresh(s *State, t types.Type, hint string) Value {
 	case *types.Chan:
 		id := fmt.Sprintf("chan:%s:%d", hint, freshCounter)
 		freshCounter++
-		s.chans[id] = &chanState{NSent: "0", Closed: "false"}
+		s.chans[id] = &chanState{NSent: "0", Closed: s.freshConst(hint+"_closed", SBool)}
 		return ChanV{id}
 	case *types.Signature:
 		return OpaqueV{"func value " + hint}
@@ -396,7 +396,7 @@ func (e *Engine) zero(s *State, t types.Type) Value {
 		return SliceV{Ref: "0", Off: "0", Len: "0", Cap: "0", Elem: u.Elem()}
 	case *types.Struct:
 		if isTextBuffer(t) {
-			return Sc{"str.empty", SStr}
+			return Sc{"gs.empty", SStr}
 		}
 		sv := StructV{T: t}
 		for i := 0; i < u.NumFields(); i++ {
